@@ -104,12 +104,7 @@ func (r *recorder) log(s string) {
 	}
 }
 
-func curWorker() *worker {
-	if ctl != nil {
-		return ctl.cur
-	}
-	return nil
-}
+func curWorker() *worker { return running() }
 
 func (s *stream) enter(what string) {
 	if !atomic.CompareAndSwapInt32(&s.inCb, 0, 1) {
